@@ -57,8 +57,7 @@ Print Assumptions execution_value_is_the_leaders.
 (* Fresh: per execution (call object) at most one returned call is reported fresh, and a
    returned call is fresh iff the caller is the leader of the execution it got its result
    from, in which case its own function ran exactly once (otherwise not at all).
-   Not proved here (the full "exactly one"): that the leader's return has been recorded
-   once [cdone] is set — in the model both happen in the same atomic action (PDeleted). *)
+   Together with [exactly_one_fresh_per_execution] below: exactly one. *)
 Theorem at_most_one_fresh_per_execution : forall scripts sched t1 t2 th1 th2 r1 r2,
   let s := exec scripts sched in
   nth_error (threads s) t1 = Some th1 -> nth_error (threads s) t2 = Some th2 ->
@@ -74,6 +73,19 @@ Theorem fresh_iff_leader : forall scripts sched t th r,
   (rfresh r = true -> rruns r = 1) /\ (rfresh r = false -> rruns r = 0).
 Proof. exact fresh_iff_leader_l. Qed.
 Print Assumptions fresh_iff_leader.
+
+(* Exactly one caller per execution is reported fresh: for every completed execution
+   (call object c whose WaitGroup is done) there is a returned call record with
+   fresh = true for it, and any fresh record for c is that very record of that thread. *)
+Theorem exactly_one_fresh_per_execution : forall scripts sched c,
+  let s := exec scripts sched in
+  c < nextc s -> cdone (heap s c) = true ->
+  exists t th r,
+    nth_error (threads s) t = Some th /\ In r (tres th) /\ rcid r = c /\ rfresh r = true /\
+    forall t' th' r', nth_error (threads s) t' = Some th' -> In r' (tres th') ->
+                      rcid r' = c -> rfresh r' = true -> t' = t /\ r' = r.
+Proof. exact exactly_one_fresh_l. Qed.
+Print Assumptions exactly_one_fresh_per_execution.
 
 (* LockedCalls: every returned call ran the caller's OWN function exactly once and
    returned its own (val, err); no two executions for one key overlap is
